@@ -1,5 +1,8 @@
 //! C02 — array content, equality and kernel results depend only on logical values.
-use arrow_array::{make_array, Array};
+#[path = "../kernels.rs"]
+mod kernels;
+use arrow_array::{make_array, Array, ArrayRef};
+use kernels::*;
 use serde_json::json;
 use vp_engine::ensure;
 use vp_engine::extract::extract;
@@ -41,8 +44,291 @@ fn sub_readback(c: &mut Case) -> CaseResult {
     Ok(())
 }
 
+fn sub_findings(c: &mut Case) -> CaseResult {
+    use arrow_array::{Int32Array, StructArray};
+    use arrow_schema::{DataType, Field, Fields};
+    let _ = c.tape.u64();
+    c.nontrivial();
+    c.describe(json!({"finding_case": c.index}));
+    if c.index == 1 {
+        // fixed 3c80875: byte view equality of a sub-range (struct children) must consult the validity of that range
+        use arrow_array::StringViewArray;
+        let mk = |garbage: &str| -> ArrayRef {
+            // row 0 valid struct, row 1 null struct; child views: row 0 "x", row 1 garbage; child row 1 null
+            let child = StringViewArray::from(vec![Some("a long string that is not inlined"), Some(garbage), Some("tail value not inlined either")]);
+            let child = StringViewArray::try_new(child.views().clone(), child.data_buffers().to_vec(), Some(arrow_buffer::NullBuffer::from(vec![true, false, true]))).unwrap();
+            let st = StructArray::try_new(Fields::from(vec![Field::new("a", DataType::Utf8View, true)]), vec![std::sync::Arc::new(child) as ArrayRef], None).unwrap();
+            std::sync::Arc::new(st.slice(1, 2))
+        };
+        let (a, b) = (mk("garbage one, long enough to spill"), mk("garbage two, long enough to spill"));
+        ensure!(a.as_ref() == b.as_ref(), "eq:same-logical:struct", "struct<utf8view> slices equal except for the payload of a null child slot compare unequal");
+    }
+    if c.index == 2 {
+        // fixed 8c29753: sparse union equality must ignore unselected children
+        use arrow_array::UnionArray;
+        use arrow_schema::UnionFields;
+        let uf = UnionFields::try_new(vec![0i8, 1], vec![Field::new("a", DataType::Int32, true), Field::new("b", DataType::Int32, true)]).unwrap();
+        let mk = |other: i32| UnionArray::try_new(uf.clone(), vec![0i8, 0].into(), None, vec![std::sync::Arc::new(Int32Array::from(vec![1, 2])) as ArrayRef, std::sync::Arc::new(Int32Array::from(vec![other, other])) as ArrayRef]).unwrap();
+        let (a, b): (ArrayRef, ArrayRef) = (std::sync::Arc::new(mk(7)), std::sync::Arc::new(mk(8)));
+        ensure!(a.as_ref() == b.as_ref(), "eq:same-logical:union", "sparse unions that differ only in unselected child slots compare unequal");
+    }
+    if c.index == 3 {
+        // fixed 946878a: list-view equality must compare the sizes of valid slots
+        use arrow_array::ListViewArray;
+        let f = std::sync::Arc::new(Field::new("item", DataType::Int32, true));
+        let child: ArrayRef = std::sync::Arc::new(Int32Array::from(vec![1, 2, 3]));
+        let nulls = Some(arrow_buffer::NullBuffer::from(vec![true, false]));
+        let a: ArrayRef = std::sync::Arc::new(ListViewArray::try_new(f.clone(), vec![0i32, 0].into(), vec![0i32, 0].into(), child.clone(), nulls.clone()).unwrap());
+        let b: ArrayRef = std::sync::Arc::new(ListViewArray::try_new(f.clone(), vec![0i32, 0].into(), vec![2i32, 0].into(), child.clone(), nulls.clone()).unwrap());
+        ensure!(a.as_ref() != b.as_ref(), "eq:different-logical:listview", "list-view [[], null] compares equal to [[1,2], null]");
+    }
+    if c.index == 4 {
+        // open (same root as C13f9b): a strict cast also converts bytes that no offset range refers to
+        use arrow_array::BinaryArray;
+        use arrow_buffer::{Buffer, OffsetBuffer};
+        let a = BinaryArray::try_new(OffsetBuffer::new(vec![1i32, 2].into()), Buffer::from_vec(vec![0xffu8, b'a']), None).unwrap();
+        let r = no_panic("cast", || arrow_cast::cast_with_options(&a, &DataType::Utf8, &arrow_cast::CastOptions { safe: false, ..Default::default() }))?;
+        if let Err(e) = r {
+            return Err(Fail::new("cast:strict:unreferenced-storage", format!("strict cast Binary[\"a\"] (first offset 1, an invalid byte before it) -> Utf8 fails: {}", e)));
+        }
+    }
+    if c.index == 5 {
+        // open (same root as C13f9): a strict cast of a dictionary also converts values no key refers to
+        use arrow_array::{types::Int8Type, DictionaryArray, Int8Array};
+        let d = DictionaryArray::<Int8Type>::try_new(Int8Array::from(vec![0i8]), std::sync::Arc::new(Int32Array::from(vec![1, -9]))).unwrap();
+        let r = no_panic("cast", || arrow_cast::cast_with_options(&d, &DataType::UInt64, &arrow_cast::CastOptions { safe: false, ..Default::default() }))?;
+        if let Err(e) = r {
+            return Err(Fail::new("cast:strict:unreferenced-storage", format!("strict cast Dictionary[1] (with an unused value -9) -> UInt64 fails: {}", e)));
+        }
+    }
+    if c.index == 0 {
+        // F1
+        let st = StructArray::try_new(Fields::from(vec![Field::new("a", DataType::Int32, true)]), vec![std::sync::Arc::new(Int32Array::from(vec![1, 2, 3])) as ArrayRef], None).unwrap();
+        let sliced = st.to_data().slice(1, 2);
+        if let Err(p) = catch(|| make_array(sliced.clone())) {
+            return Err(Fail::new("make_array:struct:sliced-arraydata", format!("make_array(struct_data.slice(1,2)) panics: {} at {}", p.msg, p.loc)));
+        }
+    }
+    Ok(())
+}
+
+fn tcfg2() -> TypeCfg {
+    let mut c = TypeCfg::all();
+    c.depth = 2;
+    c
+}
+
+fn lay() -> Lay {
+    Lay { fancy: true, dict_value_nulls: false, slice_chance: 128 }
+}
+
+/// sub-check 2: `==` holds exactly when type, length, null positions and values coincide
+fn sub_equality(c: &mut Case) -> CaseResult {
+    let ty = gen_type(&mut c.tape, &tcfg2());
+    let n = gen_len(&mut c.tape).min(60);
+    let col = gen_column(&mut c.tape, &ty, true, n, &ValCfg::default());
+    describe(c, &ty, &col);
+    let fam = ty.family();
+    c.class(fam);
+    let a1 = realise(&mut c.tape, &ty, &col, true, &lay());
+    let a2 = realise(&mut c.tape, &ty, &col, true, &lay());
+    let eq = |x: &ArrayRef, y: &ArrayRef, what: &str| -> Result<bool, Fail> { no_panic(what, || x.as_ref() == y.as_ref()) };
+    ensure!(eq(&a1, &a1, "eq")?, format!("eq:reflexive:{}", fam), "array != itself");
+    let e12 = eq(&a1, &a2, "eq")?;
+    let e21 = eq(&a2, &a1, "eq")?;
+    ensure!(e12 == e21, format!("eq:symmetric:{}", fam), "a==b is {} but b==a is {}", e12, e21);
+    ensure!(e12, format!("eq:same-logical:{}", fam), "two realisations of the same logical column compare unequal ({} rows of {})", n, ty.arrow());
+    // ArrayData == as well
+    let d12 = no_panic("ArrayData::eq", || a1.to_data() == a2.to_data())?;
+    ensure!(d12, format!("eq:arraydata:{}", fam), "ArrayData of two realisations of the same logical column compare unequal");
+    c.evals(4);
+    // perturbations must compare unequal
+    if n > 0 {
+        let i = c.tape.below(n);
+        let mut col2 = col.clone();
+        let kind = c.tape.below(3);
+        let mut changed = false;
+        match kind {
+            0 => {
+                for _ in 0..8 {
+                    let v = gen_value(&mut c.tape, &ty, !matches!(ty, LType::Union { .. }), &ValCfg::default());
+                    if v != col[i] {
+                        col2[i] = v;
+                        changed = true;
+                        break;
+                    }
+                }
+            }
+            1 => {
+                col2.pop();
+                changed = true;
+            }
+            _ => {
+                if !col[i].is_null() && !matches!(ty, LType::Union { .. }) {
+                    col2[i] = LValue::Null;
+                    changed = true;
+                }
+            }
+        }
+        if changed {
+            let a3 = realise(&mut c.tape, &ty, &col2, true, &lay());
+            ensure!(!eq(&a1, &a3, "eq")?, format!("eq:different-logical:{}", fam), "arrays with different logical content compare equal (perturbation {} at row {}: {:?} vs {:?})", kind, i, col.get(i).map(|v| v.short()), col2.get(i).map(|v| v.short()));
+            ensure!(!eq(&a3, &a1, "eq")?, format!("eq:different-logical:{}", fam), "arrays with different logical content compare equal");
+            c.evals(2);
+        }
+    }
+    if col.iter().any(|v| v.is_null()) && n >= 3 {
+        c.nontrivial();
+    }
+    Ok(())
+}
+
+fn outcome(r: &Result<ArrayRef, arrow_schema::ArrowError>) -> Result<(arrow_schema::DataType, Vec<LValue>), String> {
+    match r {
+        Ok(a) => Ok((a.data_type().clone(), extract(a.as_ref()))),
+        Err(e) => Err(err_class(e)),
+    }
+}
+
+/// sub-check 3: K(a1, args1) is logically equal to K(a2, args2), same Ok/Err outcome
+fn sub_congruence(c: &mut Case) -> CaseResult {
+    set_avoid_known(!c.strict);
+    let ty = gen_type(&mut c.tape, &tcfg2());
+    let n = gen_len(&mut c.tape).min(80);
+    let col = gen_column(&mut c.tape, &ty, true, n, &ValCfg::default());
+    let st = gen_stage(&mut c.tape, &ty, &col, true);
+    let name = st.name();
+    let kname = name.split('(').next().unwrap_or(&name).to_string();
+    let fam = ty.family();
+    c.class(format!("kernel:{}", kname));
+    c.class(format!("type:{}", fam));
+    c.describe(json!({"type": ty.arrow().to_string(), "len": n, "kernel": name, "values": short_vec(&col)}));
+    let a1 = realise(&mut c.tape, &ty, &col, true, &lay());
+    let a2 = realise(&mut c.tape, &ty, &col, true, &lay());
+    let a3 = realise(&mut c.tape, &ty, &col, true, &Lay::plain());
+    let what = format!("{}[{}]", kname, fam);
+    let r1 = no_panic(&what, || run_stage(&st, &mut c.tape, &ty, &a1))?;
+    let r2 = no_panic(&what, || run_stage(&st, &mut c.tape, &ty, &a2))?;
+    let r3 = no_panic(&what, || run_stage(&st, &mut c.tape, &ty, &a3))?;
+    let (o1, o2, o3) = (outcome(&r1), outcome(&r2), outcome(&r3));
+    for (oa, ob, label) in [(&o1, &o2, "fancy/fancy"), (&o1, &o3, "fancy/plain")] {
+        match (oa, ob) {
+            (Ok(x), Ok(y)) => {
+                ensure!(x.0 == y.0, format!("congruence:{}:type", what), "{}: result types differ between realisations ({}): {} vs {}", name, label, x.0, y.0);
+                if let Some(i) = first_diff(&x.1, &y.1) {
+                    return Err(Fail::new(format!("congruence:{}:row", what), format!("{}: row {} differs between two realisations ({}) of the same logical input: {:?} vs {:?}", name, i, label, x.1.get(i).map(|v| v.short()), y.1.get(i).map(|v| v.short()))));
+                }
+            }
+            (Err(x), Err(y)) => ensure!(x == y, format!("congruence:{}:err-kind", what), "{}: different error kinds between realisations ({}): {} vs {}", name, label, x, y),
+            (Ok(_), Err(e)) | (Err(e), Ok(_)) => {
+                return Err(Fail::new(format!("congruence:{}:ok-vs-err", what), format!("{}: one realisation ({}) succeeds, the other fails with {}", name, label, e)));
+            }
+        }
+    }
+    if col.iter().any(|v| v.is_null()) && n >= 3 {
+        c.nontrivial();
+    }
+    c.evals(3);
+    Ok(())
+}
+
+/// sub-check 4: row-wise kernels commute with take / slice
+fn sub_commutation(c: &mut Case) -> CaseResult {
+    set_avoid_known(!c.strict);
+    let ty = gen_type(&mut c.tape, &tcfg2());
+    let n = 1 + gen_len(&mut c.tape).min(60);
+    let col = gen_column(&mut c.tape, &ty, true, n, &ValCfg::default());
+    let mut st = gen_stage(&mut c.tape, &ty, &col, true);
+    for _ in 0..6 {
+        if st.row_wise() {
+            break;
+        }
+        st = gen_stage(&mut c.tape, &ty, &col, true);
+    }
+    if !st.row_wise() {
+        return Ok(());
+    }
+    let name = st.name();
+    let kname = name.split('(').next().unwrap_or(&name).to_string();
+    let fam = ty.family();
+    c.class(format!("kernel:{}", kname));
+    let use_slice = c.tape.chance(80);
+    let idx: Vec<usize> = if use_slice {
+        let o = c.tape.below(n);
+        let l = c.tape.below(n - o + 1);
+        (o..o + l).collect()
+    } else {
+        let m = c.tape.below(n + 4);
+        (0..m).map(|_| c.tape.below(n)).collect()
+    };
+    c.class(if use_slice { "selection:slice" } else { "selection:take" });
+    c.describe(json!({"type": ty.arrow().to_string(), "len": n, "kernel": name, "selection": format!("{:?}", idx.iter().take(16).collect::<Vec<_>>())}));
+    let a = realise(&mut c.tape, &ty, &col, true, &lay());
+    let what = format!("{}[{}]", kname, fam);
+    // right-hand side: select(K(a))
+    let full = no_panic(&what, || run_stage(&st, &mut c.tape, &ty, &a))?;
+    let Ok(full) = full else { return Ok(()) };
+    let full_vals = extract(full.as_ref());
+    let rhs: Vec<LValue> = idx.iter().map(|i| full_vals[*i].clone()).collect();
+    // left-hand side: K(select(a))
+    let sel_col: Vec<LValue> = idx.iter().map(|i| col[*i].clone()).collect();
+    let sel_arr = if use_slice && !idx.is_empty() { a.slice(idx[0], idx.len()) } else { realise(&mut c.tape, &ty, &sel_col, true, &lay()) };
+    let st2 = st.select_rows(&idx);
+    let lhs = no_panic(&what, || run_stage(&st2, &mut c.tape, &ty, &sel_arr))?;
+    match lhs {
+        Err(e) => return Err(Fail::new(format!("commutation:{}:err", what), format!("{} succeeds on the whole array but fails on the selected rows: {}", name, e))),
+        Ok(l) => {
+            ensure!(l.data_type() == full.data_type(), format!("commutation:{}:type", what), "{}: type of K(select(a)) {} != type of select(K(a)) {}", name, l.data_type(), full.data_type());
+            let lv = extract(l.as_ref());
+            if let Some(i) = first_diff(&lv, &rhs) {
+                return Err(Fail::new(format!("commutation:{}:row", what), format!("{}: K(select(a))[{}] = {:?} but select(K(a))[{}] = {:?}", name, i, lv.get(i).map(|v| v.short()), i, rhs.get(i).map(|v| v.short()))));
+            }
+        }
+    }
+    if idx.len() >= 2 && col.iter().any(|v| v.is_null()) {
+        c.nontrivial();
+    }
+    c.evals(2);
+    Ok(())
+}
+
+/// sub-check 5: ArrayData::slice + make_array as a layout source
+fn sub_arraydata_slice(c: &mut Case) -> CaseResult {
+    let ty = gen_type(&mut c.tape, &tcfg2());
+    let n = 1 + gen_len(&mut c.tape).min(60);
+    let col = gen_column(&mut c.tape, &ty, true, n, &ValCfg::default());
+    describe(c, &ty, &col);
+    c.class(ty.family());
+    let a = realise(&mut c.tape, &ty, &col, true, &lay());
+    let o = c.tape.below(n);
+    let l = c.tape.below(n - o + 1);
+    let d = no_panic("ArrayData::slice", || a.to_data().slice(o, l))?;
+    let b = match catch(|| make_array(d.clone())) {
+        Ok(b) => b,
+        Err(p) => return Err(Fail::new(if p.msg.contains("end <= self.len()") { "make_array:struct:sliced-arraydata".to_string() } else { format!("make_array(sliced):{}", p.sig()) }, format!("make_array(data.slice({},{})) panicked: {} at {}", o, l, p.msg, p.loc))),
+    };
+    let got = no_panic("extract", || extract(b.as_ref()))?;
+    if let Some(i) = first_diff(&got, &col[o..o + l]) {
+        return Err(Fail::new(format!("arraydata-slice:row:{}", ty.family()), format!("make_array(data.slice({},{})) row {}: {:?} expected {:?}", o, l, i, got.get(i), col.get(o + i))));
+    }
+    check_valid(b.as_ref(), "make_array(ArrayData::slice)")?;
+    ensure!(no_panic("eq", || b.as_ref() == a.slice(o, l).as_ref())?, format!("arraydata-slice:eq:{}", ty.family()), "make_array(data.slice) != Array::slice");
+    if o > 0 && l >= 2 {
+        c.nontrivial();
+    }
+    c.evals(2);
+    Ok(())
+}
+
 fn main() {
-    Check::new("C02", "exploration", "cases = (logical type, column, physical layouts); non-trivial = column with >=1 null and >=3 rows realised with layout variation")
-        .sub(Sub::new("readback", 4000, 100000, sub_readback).tape(256, 6000))
+    Check::new("C02", "exploration", "cases = (logical type of depth<=2..3, column with a generated null pattern, two or three independent physical realisations: sliced/padded, validity present or absent, garbage under nulls, permuted/duplicated/unused dictionary values, out-of-range keys under nulls, split runs, list-view child order, several view buffers; kernel from the catalogue with auxiliary arguments realised independently per run). Sub-checks: read-back vs model, equality (same logical => equal, perturbed => unequal), congruence of kernel results and Ok/Err outcome across realisations, commutation of row-wise kernels with take/slice, ArrayData::slice as layout source. Non-trivial = column with >=1 null and >=3 rows (commutation: >=2 selected rows).")
+        .assume("== on dictionary arrays compares key nulls physically: realisations keep nulls on the key side")
+        .assume("kernels whose documented result depends on physical form (dictionary GC, memory sizes) are not part of the congruence check; sort outputs are compared by value (sort is not stable)")
+        .sub(Sub::new("findings", 0, 0, sub_findings).enumerate(6, 6))
+        .sub(Sub::new("readback", 30000, 600000, sub_readback).tape(256, 6000))
+        .sub(Sub::new("equality", 20000, 400000, sub_equality).tape(256, 8000))
+        .sub(Sub::new("congruence", 40000, 800000, sub_congruence).tape(256, 10000))
+        .sub(Sub::new("commutation", 30000, 600000, sub_commutation).tape(256, 10000))
+        .sub(Sub::new("arraydata_slice", 15000, 300000, sub_arraydata_slice).tape(256, 6000))
         .run()
 }
